@@ -16,7 +16,7 @@
 (* by the property it belongs to; a check looks at its own property only.   *)
 (* Acceptance of the run = all lines consumed (i = Len(Trace) + 1).         *)
 (***************************************************************************)
-EXTENDS Integers, Sequences, SequencesExt, TLC, Json, IOUtils, SFNum, SFEvents, SFCbor, SFUbjson, SFJson, SFGoType
+EXTENDS Integers, Sequences, SequencesExt, TLC, Json, IOUtils, SFNum, SFEvents, SFCbor, SFUbjson, SFJson, SFGoType, SFVisitors
 
 Trace == ndJsonDeserialize(IOEnv.TRACE_FILE)
 
@@ -440,6 +440,32 @@ GoReuseVerdict(c) ==
             \o (IF \E j \in 1..(Len(x.deps) - (IF x.errR = "" THEN 0 ELSE 1)) : x.deps[j] # x.idle     \* completed documents only
                 THEN <<"C17:a nesting stack is not back at its idle depth after a completed document">> ELSE <<>>)
 
+\* ---- kind "xform" (package visitors) ------------------------------------------------
+(* The recorded run of a real transducer against its state machine in       *)
+(* SFVisitors, event by event: forwarded events, the refused event, Done()  *)
+(* after every event.  Only the clause the listed properties state gates    *)
+(* (C09: what ExpectObjVisitor forwards, wrapped in the enclosing object,   *)
+(* is a well-formed stream); everything else is reported as MODEL: drift    *)
+(* (the transducers are library behaviour outside the 20 properties).       *)
+EvSame(a, b) == a.k = b.k /\ a.ty = b.ty /\ a.v = b.v /\ a.len = b.len /\ a.bt = b.bt
+EvsSame(a, b) == Len(a) = Len(b) /\ \A j \in 1..Len(a) : EvSame(a[j], b[j])
+XformVerdict(c) ==
+  LET x == c.extra
+      in == x.in
+      inOK == SeqEquiv({}, Values(ExpandAll(c.stream)), Values(in)) IN
+  IF c.outcome # "ok" THEN <<"C09:outcome:" \o c.outcome \o " (visitors." \o c.sub.which \o ")">>
+  ELSE IF ~inOK THEN <<"INFRA:driver expansion differs from SFEvents!ExpandAll">>
+  ELSE IF c.sub.which = "nil"
+       THEN (IF x.errAt # 0 THEN <<"MODEL:NilVisitor refused an event">> ELSE <<>>)
+  ELSE LET m == EoRun(in) IN
+       (IF x.errAt # m.err THEN <<"MODEL:ExpectObjVisitor refuses a different event than the model">> ELSE <<>>)
+       \o (IF ~EvsSame(x.out, m.out) THEN <<"MODEL:ExpectObjVisitor forwards different events than the model">> ELSE <<>>)
+       \o (IF x.done # SubSeq(m.done, 1, Len(x.done)) THEN <<"MODEL:ExpectObjVisitor.Done() differs from the model">> ELSE <<>>)
+       \o (IF x.errAt = 0 /\ in # <<>> /\ in[1].k = "objS" /\ CWellFormed(in, 1) /\ ~CWellFormed(EoWrapped(x.out), 1)
+           THEN <<"C09:contract:" \o (IF CRun(EoWrapped(x.out)).ok THEN "unbalanced at end" ELSE CRun(EoWrapped(x.out)).why)
+                            \o " (members forwarded by ExpectObjVisitor)">> ELSE <<>>)
+       \o (IF x.mut > 0 THEN <<"C15:a string delivered by value changed afterwards (ExpectObjVisitor)">> ELSE <<>>)
+
 \* ---- the trace machine ----------------------------------------------------------
 Verdict(c) ==
   CASE c.kind = "parse" -> ParseVerdict(c)
@@ -457,6 +483,7 @@ Verdict(c) ==
     [] c.kind = "alias" -> AliasVerdict(c)
     [] c.kind = "goreuse" -> GoReuseVerdict(c)
     [] c.kind = "conc" -> ConcVerdict(c)
+    [] c.kind = "xform" -> XformVerdict(c)
     [] OTHER -> <<"INFRA:unknown case kind">>
 
 Init == i = 1 /\ nfail = 0
